@@ -326,6 +326,52 @@ func (s *sniffer) literals() (spec, spdx []string) {
 			return true
 		})
 	}
+	// switches of helpers the block delegates to: the tag is a parameter bound to a declaration field
+	for _, st := range s.block {
+		for _, cs := range callsIn(s.d.pkg, st) {
+			if cs.callee.Pkg() == nil || !strings.HasPrefix(cs.callee.Pkg().Path(), modPath+"/") {
+				continue
+			}
+			fd, pk := ev.p.FuncDecl(objName(cs.callee))
+			if fd == nil || fd.Body == nil {
+				continue
+			}
+			bound := map[types.Object]*types.Var{}
+			i := 0
+			for _, fl := range fd.Type.Params.List {
+				for _, nm := range fl.Names {
+					if i < len(cs.call.Args) {
+						if f := selectorField(s.d.pkg, cs.call.Args[i]); f != nil {
+							bound[pk.TypesInfo.Defs[nm]] = f
+						}
+					}
+					i++
+				}
+			}
+			for _, sw := range findSwitches(fd.Body) {
+				id, isID := sw.Tag.(*ast.Ident)
+				if sw.Tag == nil || !isID {
+					continue
+				}
+				f := bound[pk.TypesInfo.Uses[id]]
+				if f == nil {
+					continue
+				}
+				for _, cc := range sw.Body.List {
+					for _, e := range cc.(*ast.CaseClause).List {
+						if v, ok := constOf(pk, e); ok && v.isStr() && !seen[f.Name()+v.str()] {
+							seen[f.Name()+v.str()] = true
+							if f.Name() == s.fields["specVersion"] {
+								spec = append(spec, v.str())
+							} else if f.Name() == s.fields["spdxVersion"] {
+								spdx = append(spdx, v.str())
+							}
+						}
+					}
+				}
+			}
+		}
+	}
 	for _, st := range s.block {
 		for _, sw := range findSwitches(st) {
 			if sw.Tag == nil {
